@@ -52,6 +52,7 @@ type directive struct {
 	IfN   int               // kGuard: index (source order) of the if statement whose condition is extracted
 	Fuel  map[int]string    // loop number (1-based, source order) -> Coq fuel expression, for loops without a syntactic bound
 	Views map[string]string // struct type name -> the only field through which it is observed
+	File  string            // generated file (in the directory of out=) the definition goes to; "" = the out= file
 }
 
 // The directive table. Order matters: callees before callers.
@@ -85,6 +86,30 @@ var directives = []directive{
 	{Name: "scopeToString", Pkg: "fox", Func: "scopeToString"},
 	{Name: "redirectGuard", Pkg: "fox", Func: "cTx.Redirect", Kind: kGuard, IfN: 0},
 	{Name: "informationalGuard", Pkg: "fox", Func: "recorder.WriteHeader", Kind: kGuard, IfN: 2},
+
+	// path.go CleanPath / bufApp (C17) go to their own file, so that a refusal or a broken bridge there
+	// cannot disturb the consumers of GenFuns.v.  Loops of CleanPath in source order: #1 the main loop
+	// (fuel n+2, as coq/C17/Model.v), #2 / #3 the two backtracking loops (w decreases to 1), #4 the
+	// element copy loop (r increases to n).
+	{Name: "bufApp", Pkg: "fox", Func: "bufApp", File: "GenPath.v"},
+	{Name: "CleanPath", Pkg: "fox", Func: "CleanPath", File: "GenPath.v",
+		Fuel: map[int]string{1: "S (S (Z.to_nat n))", 2: "Z.to_nat w", 3: "Z.to_nat w", 4: "S (Z.to_nat n)"}},
+
+	// C10: the route pattern validator, into its own file (GenParse.v); fuel: the loop `for i < len(url)` advances i on every path
+	{Name: "parseRoute", Pkg: "fox", Func: "Router.parseRoute", File: "GenParse.v", Fuel: map[int]string{1: "S (List.length url)"}},
+}
+
+// extraFiles: the generated files besides out= (same directory), in a fixed order
+func extraFiles() []string {
+	var fs []string
+	seen := map[string]bool{}
+	for _, d := range directives {
+		if d.File != "" && !seen[d.File] {
+			seen[d.File] = true
+			fs = append(fs, d.File)
+		}
+	}
+	return fs
 }
 
 type pkgInfo struct {
@@ -194,7 +219,9 @@ func (p *pkgInfo) findFunc(q string) *ast.FuncDecl {
 }
 
 type output struct {
-	sb    bytes.Buffer
+	sb    *bytes.Buffer            // the file the current directive writes to
+	bufs  map[string]*bytes.Buffer // generated file name ("" = out=) -> contents
+	cur   string
 	funcs map[string]*sig // Go qualified name "pkg.Func" -> signature of the generated function
 	vars  map[types.Object]string
 }
@@ -204,6 +231,9 @@ type sig struct {
 	pure     bool
 	res      []ctype
 	recvless bool // callable from other translated functions (no flattened struct parameters)
+	file     string // generated file the definition lives in ("" = GenFuns.v)
+	declRes  int    // declared results; res = declared results ++ one gobuf per *[]byte parameter
+	outIdx   []int  // positions of the *[]byte parameters (the call site passes &x and rebinds x)
 }
 
 func header(p *pkgInfo, n ast.Node, what string) string {
@@ -224,6 +254,9 @@ func main() {
 			if stubFile != "" { // leave nothing stale from an earlier run behind
 				msg := strings.NewReplacer("(*", "( *", "*)", "* )", "\"", "'").Replace(rf.msg)
 				os.WriteFile(stubFile, []byte("(* GENERATED by harness/cmd/gotrans — REFUSED: "+msg+" *)\n"), 0o644)
+				for _, x := range extraFiles() {
+					os.WriteFile(filepath.Join(filepath.Dir(stubFile), x), []byte("(* GENERATED by harness/cmd/gotrans — REFUSED: "+msg+" *)\n"), 0o644)
+				}
 			}
 			os.Exit(1)
 		}
@@ -263,18 +296,23 @@ func main() {
 	}
 
 	refused := 0
-	out := &output{funcs: map[string]*sig{}, vars: map[types.Object]string{}}
-	out.sb.WriteString("(* GENERATED by harness/cmd/gotrans from the fox sources on every run — do not edit.\n" +
+	out := &output{funcs: map[string]*sig{}, vars: map[types.Object]string{}, bufs: map[string]*bytes.Buffer{}}
+	const prologue = "(* GENERATED by harness/cmd/gotrans from the fox sources on every run — do not edit.\n" +
 		"   Each definition is the translation of the Go text named in the comment above it\n" +
 		"   (file, line range, SHA-256 of that text).  Semantics of the primitives: GoSem.v. *)\n" +
 		"From FoxBase Require Import Bytes.\nFrom FoxGen Require Import GoSem.\n" +
-		"Open Scope char_scope.\nOpen Scope bool_scope.\nOpen Scope Z_scope.\n\n")
+		"Open Scope char_scope.\nOpen Scope bool_scope.\nOpen Scope Z_scope.\n\n"
+	for _, fn := range append([]string{""}, extraFiles()...) {
+		out.bufs[fn] = &bytes.Buffer{}
+		out.bufs[fn].WriteString(prologueFor(fn, prologue)) // outfiles.go
+	}
 	for i := range directives {
 		d := &directives[i]
 		p := pkgs[d.Pkg]
 		if p == nil {
 			die("directive %s: unknown package %s", d.Name, d.Pkg)
 		}
+		out.sb, out.cur = out.bufs[d.File], d.File
 		func() {
 			mark := out.sb.Len()
 			defer func() {
@@ -285,7 +323,7 @@ func main() {
 					}
 					out.sb.Truncate(mark)
 					msg := strings.NewReplacer("(*", "( *", "*)", "* )", "\"", "'").Replace(rf.msg)
-					fmt.Fprintf(&out.sb, "(* REFUSED gen_%s — %s *)\n\n", d.Name, msg)
+					fmt.Fprintf(out.sb, "(* REFUSED gen_%s — %s *)\n\n", d.Name, msg)
 					fmt.Fprintf(os.Stderr, "gotrans: REFUSED gen_%s: %s\n", d.Name, rf.msg)
 					refused++
 				}
@@ -302,7 +340,10 @@ func main() {
 			}
 		}()
 	}
-	write(outFile, out.sb.Bytes())
+	write(outFile, out.bufs[""].Bytes())
+	for _, x := range extraFiles() {
+		write(filepath.Join(filepath.Dir(outFile), x), out.bufs[x].Bytes())
+	}
 	if semFile != "" {
 		write(semFile, []byte(semCheck()))
 	}
